@@ -11,6 +11,11 @@ def make(ID, families, check_name, profiles, n_quick, n_thorough, extra_nt=None,
         n = {"quick": n_quick, "thorough": n_thorough}[ctx.tier]
         for prof in profiles:
             run_hypothesis(ctx, S.spec_with_pins(prof, n_sets=n_sets), prop, max_examples=n)
+        if ctx.tier == "thorough":
+            # larger instances (sampling only, no enumeration): 4-6 tasks, horizons up to 12
+            for prof in profiles[:2]:
+                big = dict(prof, min_tasks=4, max_tasks=6, horizon=(6, 12), n_workers=(2, 4))
+                run_hypothesis(ctx, S.spec_with_pins(big, n_sets=n_sets), prop, max_examples=max(20, n // 5))
 
     def replay(record):
         return engine.replay_soundness(record, families)
